@@ -227,7 +227,7 @@ func propC10(w *World, r *Report) {
 		}
 	}
 	// ---- D5: clean-up globs
-	var cleanup *ssa.Function
+	var cleanup, worker *ssa.Function
 	var cleanupCall *ssa.Call
 	hciD := analyseHandleConn(w)
 	if hciD.err == nil {
@@ -235,6 +235,23 @@ func propC10(w *World, r *Report) {
 		for _, fn := range w.RepoFuncs() {
 			if fn.Pkg == hciD.fn.Pkg && callsGlobAndRemoveAll(w, fn) {
 				cleanup = fn
+			}
+		}
+		worker = cleanup
+		if cleanup != nil {
+			// the glob-and-remove worker may be a helper run once per directory by the clean-up proper: climb to the
+			// single calling function as long as that is not itself on the start-up chain above the handler
+			onChain := map[*ssa.Function]bool{}
+			for t, i := hciD.setup, 0; i < 4; i++ {
+				cs := w.callersOf(t)
+				if len(cs) != 1 {
+					break
+				}
+				onChain[cs[0]] = true
+				t = cs[0]
+			}
+			if cs := w.callersOf(cleanup); len(cs) == 1 && !onChain[cs[0]] && cs[0].Pkg == cleanup.Pkg && len(cs[0].Params) >= 1 && isStringType(cs[0].Params[0].Type()) && returnsErrorOf(cs[0], cleanup) {
+				cleanup = cs[0]
 			}
 		}
 		if cleanup != nil {
@@ -253,7 +270,7 @@ func propC10(w *World, r *Report) {
 		r.Fail("D4", "start-up clean-up is called from runMain before connections are handled", "-", "no function that globs and removes files is called on the start-up path (or no connection handler call)", "")
 		return
 	}
-	okBefore, how := runsBeforeServing(w, hciD.fn, cleanupCall, 0)
+	okBefore, how := runsBeforeServing(w, hciD.setup, cleanupCall, 0)
 	r.Check(okBefore, "D4", "the clean-up dominates the first handleConn call (runs on every path before serving)", w.InstrPos(cleanupCall), how)
 	checkCleanupOnlyAtStartup(w, r, "D4")
 	argT := newTermEnv(w).termOf(cleanupCall.Call.Args[0]).String()
@@ -269,7 +286,7 @@ func propC10(w *World, r *Report) {
 	if okErr {
 		// when the call sits in a stage function, that function's error must abort its caller as well
 		stage := cleanupCall.Parent()
-		if cs := w.callersOf(stage); len(cs) == 1 && w.callersOf(hciD.fn)[0] != stage {
+		if cs := w.callersOf(stage); len(cs) == 1 && w.callersOf(hciD.setup)[0] != stage {
 			if !returnsErrorOf(cs[0], stage) {
 				okErr = false
 			}
@@ -285,32 +302,56 @@ func propC10(w *World, r *Report) {
 		val     ssa.Value
 	}
 	var globs []globT
-	for _, b := range cleanup.Blocks {
-		for _, in := range b.Instrs {
-			c, ok := in.(*ssa.Call)
-			if !ok || calleeName(c) != "filepath.Glob" {
-				continue
-			}
-			t := ge.termOf(c.Call.Args[0])
-			g := globT{pos: w.InstrPos(c), val: c}
-			okG := false
-			if t.Op == "call" && strings.HasSuffix(t.Name, "filepath.Join") && len(t.Args) == 1 && t.Args[0].Op == "list" && len(t.Args[0].Args) == 2 {
-				if p, ok := constString(t.Args[0].Args[1]); ok {
-					g.pattern = p
-					g.dirRel, okG = dirAlternatives(t.Args[0].Args[0], ge.termOf(cleanup.Params[0]).String())
+	// the worker's body, once per call from the clean-up proper with its parameters bound to that call's arguments
+	type inst struct {
+		env *termEnv
+		fn  *ssa.Function
+	}
+	insts := []inst{{ge, cleanup}}
+	if worker != cleanup {
+		insts = nil
+		for _, b := range cleanup.Blocks {
+			for _, in := range b.Instrs {
+				if c, ok := in.(*ssa.Call); ok && c.Call.StaticCallee() == worker {
+					ce := ge.child()
+					for i, p := range worker.Params {
+						if i < len(c.Call.Args) {
+							ce.bind[p] = ge.termOf(c.Call.Args[i])
+						}
+					}
+					insts = append(insts, inst{ce, worker})
 				}
 			}
-			if !okG {
-				r.Unknown("D5", "clean-up glob", g.pos, "glob pattern not understood: "+t.String())
-				continue
+		}
+	}
+	for _, is := range insts {
+		for _, b := range is.fn.Blocks {
+			for _, in := range b.Instrs {
+				c, ok := in.(*ssa.Call)
+				if !ok || calleeName(c) != "filepath.Glob" {
+					continue
+				}
+				t := is.env.termOf(c.Call.Args[0])
+				g := globT{pos: w.InstrPos(c), val: c}
+				okG := false
+				if t.Op == "call" && strings.HasSuffix(t.Name, "filepath.Join") && len(t.Args) == 1 && t.Args[0].Op == "list" && len(t.Args[0].Args) == 2 {
+					if p, ok := constString(t.Args[0].Args[1]); ok {
+						g.pattern = p
+						g.dirRel, okG = dirAlternatives(t.Args[0].Args[0], ge.termOf(cleanup.Params[0]).String())
+					}
+				}
+				if !okG {
+					r.Unknown("D5", "clean-up glob", g.pos, "glob pattern not understood: "+t.String())
+					continue
+				}
+				globs = append(globs, g)
 			}
-			globs = append(globs, g)
 		}
 	}
 	// every glob result is removed
 	for _, g := range globs {
 		removed := false
-		for _, b := range cleanup.Blocks {
+		for _, b := range worker.Blocks {
 			for _, in := range b.Instrs {
 				if c, ok := in.(*ssa.Call); ok && calleeName(c) == "os.Remove" {
 					t := ge.termOf(c.Call.Args[0])
@@ -455,17 +496,17 @@ func propC10(w *World, r *Report) {
 	ci := analyseHandleConn(w)
 	if ci.err == nil {
 		okDefer := false
-		for _, b := range ci.fn.Blocks {
+		for _, b := range ci.setup.Blocks {
 			for _, in := range b.Instrs {
 				if d, ok := in.(*ssa.Defer); ok && d.Call.StaticCallee() == abort {
-					if c, ok := d.Call.Args[0].(*ssa.Call); ok && ctorCallIn(ci.fn, c, ctor) != nil && c.Block() == b {
+					if c, ok := d.Call.Args[0].(*ssa.Call); ok && ctorCallIn(ci.setup, c, ctor) != nil && c.Block() == b {
 						// nothing that can return sits between construction and the defer
 						okDefer = true
 					}
 				}
 			}
 		}
-		r.Check(okDefer, "D3", "the connection handler defers Stop() on the motion file recorder right after constructing it", w.Pos(ci.fn.Pos()), "")
+		r.Check(okDefer, "D3", "the connection handler defers Stop() on the motion file recorder right after constructing it", w.Pos(ci.setup.Pos()), "")
 	}
 	// the directory the clean-up scans is the directory the recorders write to: the loaded output-dir setting is never
 	// rewritten after loading (a recorder that rewrote it, e.g. through a pointer copy of the configuration, would move
@@ -711,7 +752,7 @@ func checkCleanupOnlyAtStartup(w *World, r *Report, rule string) {
 		return
 	}
 	var runMain *ssa.Function
-	if cs := w.callersOf(hci.fn); len(cs) == 1 {
+	if cs := w.callersOf(hci.setup); len(cs) == 1 {
 		runMain = cs[0]
 	}
 	if runMain == nil {
@@ -742,7 +783,7 @@ func checkCleanupOnlyAtStartup(w *World, r *Report, rule string) {
 					construct := "in-progress-file clean-up " + cl.Name() + " called from " + f.Name()
 					if _, isGo := in.(*ssa.Go); isGo {
 						r.Fail(rule, construct, w.InstrPos(in), "the clean-up runs concurrently with the connection loop", "")
-					} else if ok, how := runsBeforeServing(w, hci.fn, in, 0); ok {
+					} else if ok, how := runsBeforeServing(w, hci.setup, in, 0); ok {
 						r.Pass(rule, construct, w.InstrPos(in), "start-up path: "+how)
 					} else {
 						r.Fail(rule, construct, w.InstrPos(in), "the clean-up that unlinks every in-progress recording file is called outside start-up: the open temporary files of the other recorders (continuous, test) are deleted under them", "")
@@ -886,4 +927,9 @@ func callerNames(w *World, fn *ssa.Function) []string {
 	}
 	sort.Strings(out)
 	return out
+}
+
+func isStringType(t types.Type) bool {
+	bt, ok := t.Underlying().(*types.Basic)
+	return ok && bt.Info()&types.IsString != 0
 }
